@@ -1678,6 +1678,64 @@ fn outage_run(rng: &mut Rng, out: &mut Out, rec: &Arc<Recorder>, dir: &str, idx:
     let _ = std::fs::remove_file(&path);
 }
 
+/// C19, directed: a write accepted on a shard WHILE that shard's periodic flush is in flight (the worker has drained
+/// the shard and sits in its - slowed - record write), followed by silence: no further write, no flush call.  The
+/// coordinator's next ticks must still see it.  (The same key is written twice, so both writes hash to one shard
+/// whatever the shard count.)
+fn append_during_flush_run(rng: &mut Rng, out: &mut Out, rec: &Arc<Recorder>, dir: &str, idx: u64) {
+    let blocks = 96u64;
+    let path = format!("{}/adf{}.feox", dir, idx);
+    let _ = std::fs::remove_file(&path);
+    rec.log.lock().unwrap().clear();
+    *rec.plan.lock().unwrap() = FaultPlan::default();
+    rec.fd.store(-2, Ordering::SeqCst);
+    rec.enabled.store(true, Ordering::SeqCst);
+    let finish = |rec: &Arc<Recorder>| { rec.data_write_delay_ms.store(0, Ordering::SeqCst); rec.slow_writes_left.store(u64::MAX, Ordering::SeqCst); rec.enabled.store(false, Ordering::SeqCst); rec.fd.store(-1, Ordering::SeqCst); };
+    let Ok(store) = open_store(&path, blocks, false) else { finish(rec); return };
+    let durable = |want: &BTreeMap<Vec<u8>, Option<u64>>| -> bool {
+        let trace: Vec<Ev> = rec.log.lock().unwrap().clone();
+        let (img, _) = build_image(&trace, trace.len(), blocks, &|_, _| Fate::Lost);
+        let p = write_image(dir, &format!("adf{}_probe.feox", idx), &img);
+        let r = recover(&p, blocks);
+        let _ = std::fs::remove_file(&p);
+        match r { Ok(rv) => want.iter().all(|(k, w)| rv.contents.get(k).map(|x| x.0) == *w), Err(_) => false }
+    };
+    let mut want: BTreeMap<Vec<u8>, Option<u64>> = BTreeMap::new();
+    let mut hit = 0;
+    for round in 0..5u64 {
+        let key = format!("adf{}-{}", idx, round % 3).into_bytes();
+        rec.slow_writes_left.store(1, Ordering::SeqCst);
+        rec.data_write_delay_ms.store(rng.range(30, 60), Ordering::SeqCst); // shorter than the 100 ms tick: the flush was started by a tick, the next one comes after it has ended
+        let started0 = rec.data_writes_started.load(Ordering::SeqCst);
+        let v1 = rng.bytes(100 + round as usize);
+        if store.insert(&key, &v1).is_err() { continue; }
+        want.insert(key.clone(), Some(fnv(&v1)));
+        // the tick-driven flush has drained the shard and entered its (slowed) record write
+        let t0 = std::time::Instant::now();
+        while rec.data_writes_started.load(Ordering::SeqCst) == started0 && t0.elapsed().as_millis() < 3000 { std::thread::sleep(std::time::Duration::from_millis(2)); }
+        if rec.data_writes_started.load(Ordering::SeqCst) == started0 { continue; }
+        let v2 = rng.bytes(140 + round as usize);
+        if store.insert(&key, &v2).is_ok() { want.insert(key.clone(), Some(fnv(&v2))); hit += 1; }
+        // silence
+        let t1 = std::time::Instant::now();
+        let mut ok = false;
+        while t1.elapsed().as_millis() < 8000 {
+            if durable(&want) { ok = true; break; }
+            std::thread::sleep(std::time::Duration::from_millis(40));
+        }
+        out.max_latency_ms = out.max_latency_ms.max(t1.elapsed().as_millis() as u64);
+        if !ok {
+            out.fail("C19", format!("a write accepted while its shard's periodic flush was in flight (round {}: second write of key {} issued during the worker's record write) was not durable 8 s later - no further write, no flush call", round, String::from_utf8_lossy(&key)), "-");
+            break;
+        }
+    }
+    out.count("append-during-flush case");
+    if hit > 0 { out.count("append-during-flush case: write landed inside an in-flight flush"); }
+    drop(store);
+    finish(rec);
+    let _ = std::fs::remove_file(&path);
+}
+
 fn writebehind_run(rng: &mut Rng, out: &mut Out, rec: &Arc<Recorder>, dir: &str, idx: u64) {
     let blocks = 256u64;
     let path = format!("{}/wb{}.feox", dir, idx);
@@ -1912,6 +1970,7 @@ fn main() {
         for i in 0..get("wb", 2) {
             writebehind_run(&mut rng, &mut out, &rec, &args.out.clone(), i);
             if i == 0 && get("outage", 1) == 1 { outage_run(&mut rng, &mut out, &rec, &args.out.clone(), i); }
+            if i < 2 { append_during_flush_run(&mut rng, &mut out, &rec, &args.out.clone(), i); }
         }
     }
     out.ops.flush().unwrap();
